@@ -1374,7 +1374,7 @@ func main() {
 	// which cases are evaluated against the model inside Coq
 	max := *coqMax
 	if max == 0 {
-		max = 2400
+		max = 1800
 		if *tier == "thorough" {
 			max = 1 << 30
 		}
